@@ -53,7 +53,7 @@ func QuorumSignatureFromProto(sig *QuorumSignature) hotstuff.QuorumSignature {
 	if signature := sig.GetEDDSASigs(); signature != nil {
 		sigs := make([]*crypto.EDDSASignature, len(signature.GetSigs()))
 		for i, sig := range signature.GetSigs() {
-			sigs[i] = crypto.RestoreEDDSASignature(sig.Sig, hotstuff.ID(sig.GetSigner()))
+			sigs[i] = crypto.RestoreEDDSASignature(sig.GetSig(), hotstuff.ID(sig.GetSigner()))
 		}
 		return crypto.NewMulti(sigs...)
 	}
